@@ -30,7 +30,8 @@ TNext ==
          op == OpOf(e)
          isReopen == e.op = "reopen"
          ws == IF isReopen THEN <<>> ELSE WritesOf(op)
-         killed == e.kill >= 0 /\ e.kill < Len(ws)
+         killed == e.kill >= 0 /\ e.kill < Len(ws)       \* the specification's view: dies before one of ITS writes
+         killedReal == e.kill >= 0                          \* the process did die inside the operation
          exp == IF isReopen THEN Store ELSE ApplyAll(Store, IF killed THEN SubSeq(ws, 1, e.kill) ELSE ws)
          expVis == SubSeq(exp.area, 1, exp.hdr)
          expMem == IF isReopen THEN Visible ELSE IF killed THEN mem ELSE MemAfter(op)
@@ -43,10 +44,11 @@ TNext ==
      \* the observed state becomes the next state (monitor mode)
      /\ area' = e.visible /\ hdr' = Len(e.visible) /\ fsize' = e.fsize /\ meta' = e.meta
      /\ metaTmp' = IF isReopen THEN metaTmp ELSE exp.metaTmp
-     /\ mem' = IF killed THEN mem ELSE e.mem
-     /\ dead' = killed
+     /\ mem' = IF killedReal THEN mem ELSE e.mem
+     /\ dead' = killedReal
      /\ exc' = (exc \/ e.exc)
-     /\ ks' = IF killed THEN [has |-> TRUE, op |-> op, pre |-> mem, keep |-> KeptBy(op)] ELSE [has |-> FALSE]
+     /\ ks' = IF killedReal THEN [has |-> TRUE, op |-> op, pre |-> mem, keep |-> KeptBy(op), metaPre |-> meta, commitPre |-> commitMem]
+               ELSE [has |-> FALSE]
      /\ commitMem' = IF isReopen THEN e.meta ELSE IF e.op = "setc" THEN e.c ELSE commitMem
      /\ saved' = IF isReopen THEN TRUE ELSE IF e.op = "setc" THEN FALSE ELSE IF e.op = "timer" THEN TRUE ELSE saved
      /\ everSet' = IF e.op = "setc" THEN everSet \cup {e.c} ELSE everSet
@@ -55,6 +57,7 @@ TNext ==
      /\ LET bad == (IF SameAsList' THEN {} ELSE {"C08.SameAsList"})
                    \cup (IF CommitIndexWasSet' THEN {} ELSE {"C08.CommitIndexWasSet"})
                    \cup (IF KillSafe' THEN {} ELSE IF HeadDropKill' THEN {"C08.KillSafe#KF2"} ELSE {"C08.KillSafe"})
+                   \cup (IF MetaOldOrNew' THEN {} ELSE {"C08.MetaOldOrNew"})
                    \cup (IF e.exc THEN {"C08.NoException"} ELSE {})
         IN (bad # {}) => PrintT(<<"VIOL", tid, l, <<e.op>>, bad>>)
      /\ (l = Len(Steps(tid))) => PrintT(<<"DONE", tid, 0, 0>>)
